@@ -399,3 +399,49 @@ def m4_row(atoms, env) -> bool:
             if pv in a["val"] and pv not in items:
                 return True
     return False
+
+
+# --------------------------------------------------------------------------
+# shapes aimed at the simplifiers: shared factors, complementary atoms, wide normal forms
+_NEG = {"==": "!=", "!=": "==", "<": ">=", ">=": "<", ">": "<=", "<=": ">", "in": "not in", "not in": "in"}
+
+
+def negate_atom(a):
+    """Exact complement of an atom where one exists in the grammar (None for ~=)."""
+    if a["op"] not in _NEG:
+        return None
+    return {**a, "op": _NEG[a["op"]]}
+
+
+@st.composite
+def factored_tree(draw, classes):
+    """(P and X) or (P and Y) / (P or X) and (P or Y) with X, Y on one variable (often exact complements),
+    or a wide DNF / CNF over distinct variables - the inputs of union_simplify / intersect_simplify / cnf / dnf."""
+    kind = draw(st.sampled_from(["shared-or", "shared-and", "shared-or", "shared-and", "shared-or", "shared-and", "wide-dnf", "wide-cnf"]))
+    if kind.startswith("wide"):
+        inner, outer = ("and", "or") if kind == "wide-dnf" else ("or", "and")
+        groups = []
+        for _ in range(draw(st.sampled_from([2, 2, 2, 3]))):
+            ats = [draw(atom(classes)) for _ in range(draw(st.sampled_from([2, 2, 2, 3])))]
+            groups.append([inner, [["atom", a] for a in ats]])
+        return [outer, groups]
+    inner, outer = ("and", "or") if kind == "shared-or" else ("or", "and")
+    p = draw(atom(classes))
+    x = draw(atom(classes))
+    how = draw(st.sampled_from(["complement", "complement", "same-var", "other"]))
+    y = negate_atom(x) if how == "complement" else None
+    if y is None:
+        y = draw(atom(classes))
+        if how == "same-var":
+            for _ in range(4):
+                if _family(y["var"]) == _family(x["var"]):
+                    break
+                y = draw(atom(classes))
+    left = [inner, [["atom", p], ["atom", x]]]
+    right = [inner, [["atom", dict(p)], ["atom", y]]]
+    if draw(st.booleans()):
+        q = draw(atom(classes))
+        right = [inner, [["atom", dict(p)], ["atom", y], ["atom", q]]]
+    if draw(st.booleans()):
+        left, right = right, left
+    return [outer, [left, right]]
